@@ -1,1 +1,686 @@
-(* stub: to be written by group Questrade *)
+(* C18: proofs about Model/Questrade.v, Model/FxTracker.v against Spec/QtExport.v *)
+From Coq Require Import List NArith ZArith QArith Qcanon Bool Lia Permutation.
+From ACB Require Import Base.Outcome Base.QcExtra Base.Fit Base.Arith Model.QText
+     Model.FxTracker Model.Questrade Spec.QtExport.
+Import ListNotations.
+Local Open Scope N_scope.
+
+(* ---------- text equality ---------- *)
+Lemma text_eqb_eq a : forall b, text_eqb a b = true -> a = b.
+Proof.
+  induction a as [|x a IH]; intros [|y b] H; try discriminate; [reflexivity|].
+  cbn [text_eqb] in H. apply andb_true_iff in H. destruct H as [Hx Hr].
+  apply N.eqb_eq in Hx. subst. f_equal. apply IH. exact Hr.
+Qed.
+
+Lemma text_eqb_refl a : text_eqb a a = true.
+Proof. induction a as [|x a IH]; [reflexivity|]. cbn [text_eqb]. rewrite N.eqb_refl, IH. reflexivity. Qed.
+
+Lemma text_eqb_neq a b : text_eqb a b = false -> a <> b.
+Proof. intros H E. subst. rewrite text_eqb_refl in H. discriminate. Qed.
+
+(* ---------- actions ---------- *)
+Lemma trade_action_iff act :
+  is_trade_action act = true <->
+  (mem_text act allowed_actions = true /\ mem_text act ignored_actions = false /\
+   text_eqb act t_FXT = false /\ text_eqb act t_DIV = false).
+Proof.
+  split.
+  - unfold is_trade_action, is_buy_action, is_sell_action. rewrite !orb_true_iff.
+    intros [[H|H]|[H|H]]; apply text_eqb_eq in H; subst; vm_compute; auto.
+  - unfold mem_text, allowed_actions, is_trade_action, is_buy_action, is_sell_action.
+    cbn [existsb]. intros [H [_ [H1 H2]]]. rewrite H1, H2 in H.
+    rewrite !orb_false_r in H.
+    destruct (text_eqb act t_BUY), (text_eqb act t_SELL), (text_eqb act t_DIS), (text_eqb act t_LIQ);
+      cbn in H |- *; try reflexivity; discriminate.
+Qed.
+
+Lemma not_trade_action act :
+  (mem_text act allowed_actions = false \/ mem_text act ignored_actions = true \/
+   text_eqb act t_FXT = true \/ text_eqb act t_DIV = true) ->
+  is_trade_action act = false.
+Proof.
+  intros H. destruct (is_trade_action act) eqn:E; [|reflexivity].
+  apply trade_action_iff in E. destruct E as [E1 [E2 [E3 E4]]].
+  destruct H as [H|[H|[H|H]]]; congruence.
+Qed.
+
+Lemma buy_flag act :
+  is_trade_action act = true -> (text_eqb act t_BUY || text_eqb act t_DIS) = is_buy_action act.
+Proof. reflexivity. Qed.
+
+Lemma currency_usd curs : text_eqb (currency_of curs) t_USD = text_eqb (upper curs) t_USD.
+Proof. unfold currency_of. destruct (upper curs); reflexivity. Qed.
+
+(* ---------- Qc helpers ---------- *)
+Local Open Scope Qc_scope.
+Lemma Qcabs_signed a : (if Qcltb 0 a then Qcabs a else - Qcabs a) = a.
+Proof.
+  unfold Qcabs. destruct (Qcltb 0 a) eqn:E1; destruct (Qcleb 0 a) eqn:E2; qc_bool; try ring.
+  - exfalso. qc_lra.
+  - assert (a = 0) by qc_lra. subst. ring.
+Qed.
+
+Lemma Qcabs_pos a : a <> 0 -> 0 < Qcabs a.
+Proof.
+  intros H. unfold Qcabs. destruct (Qcleb 0 a) eqn:E; qc_bool.
+  - destruct (Qceqb_spec a 0) as [->|Hne]; [contradiction H; reflexivity|].
+    apply Qcle_lt_or_eq in E. destruct E as [E|E]; [exact E|]. subst. contradiction H. reflexivity.
+  - qc_lra.
+Qed.
+Local Close Scope Qc_scope.
+
+(* ---------- one row ---------- *)
+(* case analysis of a [gbind] / [if] / [match] chain ending in [Ok e] *)
+Ltac gb H :=
+  match type of H with
+  | gbind ?g _ _ = Ok _ =>
+      let E := fresh "G" in
+      destruct g eqn:E; cbn [gbind] in H; cbv beta in H
+  end.
+
+Lemma eff_inv t f a e x : eff t f a e = Ok x ->
+  e_trades x = t /\ e_fx x = f /\ e_adj x = a /\ e_err x = e.
+Proof. unfold eff. intros H. inversion H. cbn. auto. Qed.
+
+Lemma add_implicit_exact t :
+  add_implicit_fxt exact t =
+  let amount := ((if b_buy t then - (b_price t * b_shares t) else b_price t * b_shares t) - b_comm t)%Qc in
+  if Qceqb amount 0 then Ok ([], None)
+  else match fx_tx (b_cur t) (b_td t) (b_tdt t) amount (b_reg t) (b_row t) (b_acct t) None with
+       | inl e => Ok ([], Some e)
+       | inr x => Ok ([x], None)
+       end.
+Proof. reflexivity. Qed.
+
+Theorem row_trades n q adj e :
+  row_effect exact n q adj = Ok e ->
+  e_trades e = match trade_of_row n q with Some t => [t] | None => [] end.
+Proof.
+  intros H. unfold row_effect in H. unfold trade_of_row, action_of, date_of, str_of, dec_of.
+  gb H; [| apply eff_inv in H; destruct H as [-> _]; reflexivity | discriminate].
+  destruct (negb (mem_text (upper v) allowed_actions) && negb (mem_text (upper v) ignored_actions)) eqn:Eun.
+  { apply eff_inv in H. destruct H as [-> _].
+    rewrite not_trade_action; [reflexivity|]. apply andb_true_iff in Eun. destruct Eun as [Ea _].
+    apply negb_true_iff in Ea. left. exact Ea. }
+  destruct (mem_text (upper v) ignored_actions) eqn:Eig.
+  { apply eff_inv in H. destruct H as [-> _]. rewrite not_trade_action; [reflexivity|]. right. left. exact Eig. }
+  assert (Hall : mem_text (upper v) allowed_actions = true).
+  { try rewrite Eig in Eun. cbn [negb] in Eun. rewrite andb_true_r in Eun. apply negb_false_iff in Eun. exact Eun. }
+  gb H; [| apply eff_inv in H; destruct H as [-> _]; destruct (is_trade_action (upper v)); reflexivity | discriminate].
+  rename v0 into tdt.
+  destruct (parse_date tdt) as [td|] eqn:Etd;
+    [| apply eff_inv in H; destruct H as [-> _]; destruct (is_trade_action (upper v)); reflexivity].
+  gb H; [| apply eff_inv in H; destruct H as [-> _]; destruct (is_trade_action (upper v)); reflexivity | discriminate].
+  rename v0 into sdt.
+  destruct (parse_date sdt) as [sd|] eqn:Esd;
+    [| apply eff_inv in H; destruct H as [-> _]; destruct (is_trade_action (upper v)); reflexivity].
+  gb H; [| apply eff_inv in H; destruct H as [-> _]; destruct (is_trade_action (upper v)); reflexivity | discriminate].
+  rename v0 into atype.
+  gb H; [| apply eff_inv in H; destruct H as [-> _]; destruct (is_trade_action (upper v)); reflexivity | discriminate].
+  rename v0 into anum.
+  destruct (text_eqb (upper v) t_FXT) eqn:Efxt.
+  { rewrite not_trade_action by (right; right; left; exact Efxt).
+    gb H; [| apply eff_inv in H; destruct H as [-> _]; reflexivity | discriminate].
+    gb H; [| apply eff_inv in H; destruct H as [-> _]; reflexivity | discriminate].
+    destruct (add_fxt_row exact adj _) as [[[adj' fx] er]| |]; cbn [bind] in H; try discriminate.
+    apply eff_inv in H. destruct H as [-> _]. reflexivity. }
+  gb H; [| apply eff_inv in H; destruct H as [-> _]; destruct (is_trade_action (upper v)); reflexivity | discriminate].
+  rename v0 into sym.
+  destruct sym as [|c s];
+    [apply eff_inv in H; destruct H as [-> _]; destruct (is_trade_action (upper v)); reflexivity|].
+  destruct (text_eqb (upper v) t_DIV) eqn:Ediv.
+  { rewrite not_trade_action by (right; right; right; exact Ediv).
+    gb H; [| apply eff_inv in H; destruct H as [-> _]; reflexivity | discriminate].
+    destruct (text_eqb (upper v0) t_USD).
+    - gb H; [| apply eff_inv in H; destruct H as [-> _]; reflexivity | discriminate].
+      destruct (fx_tx _ _ _ _ _ _ _ _); apply eff_inv in H; destruct H as [-> _]; reflexivity.
+    - apply eff_inv in H. destruct H as [-> _]. reflexivity. }
+  assert (Htr : is_trade_action (upper v) = true) by (apply trade_action_iff; auto).
+  rewrite Htr.
+  gb H; [| apply eff_inv in H; destruct H as [-> _]; reflexivity | discriminate].
+  rename v0 into price.
+  gb H; [| apply eff_inv in H; destruct H as [-> _]; reflexivity | discriminate].
+  rename v0 into qty.
+  gb H; [| apply eff_inv in H; destruct H as [-> _]; reflexivity | discriminate].
+  rename v0 into comm.
+  gb H; [| apply eff_inv in H; destruct H as [-> _]; reflexivity | discriminate].
+  rename v0 into curs.
+  match type of H with (if ?c then _ else _) = _ => destruct c end.
+  - apply eff_inv in H. destruct H as [-> _]. reflexivity.
+  - rewrite add_implicit_exact in H. cbv zeta in H.
+    match type of H with context [Qceqb ?a 0] => destruct (Qceqb a 0) end.
+    + cbn [bind] in H. apply eff_inv in H. destruct H as [-> _]. reflexivity.
+    + destruct (fx_tx _ _ _ _ _ _ _ _); cbn [bind] in H; apply eff_inv in H; destruct H as [-> _]; reflexivity.
+Qed.
+
+Theorem convert_rows_trades rows : forall n adj ts fs adj' errs,
+  convert_rows exact n rows adj = Ok (ts, fs, adj', errs) -> ts = expected_trades n rows.
+Proof.
+  induction rows as [|q r IH]; intros n adj ts fs adj' errs H.
+  - cbn in H. inversion H. reflexivity.
+  - cbn [convert_rows] in H.
+    destruct (row_effect exact n q adj) as [e| |] eqn:Er; cbn [bind] in H; try discriminate.
+    destruct (convert_rows exact (n + 1) r (e_adj e)) as [[[[ts' fs'] a'] errs']| |] eqn:Ec;
+      cbn [bind] in H; try discriminate.
+    inversion H; subst. cbn [expected_trades].
+    rewrite (row_trades n q adj e Er), (IH _ _ _ _ _ _ Ec). reflexivity.
+Qed.
+
+(* ---------- FX transactions ---------- *)
+Lemma fx_tx_inr cur td tdt amount reg row acct rate t :
+  fx_tx cur td tdt amount reg row acct rate = inr t ->
+  cur = t_USD /\
+  t = {| b_sec := t_USD ++ t_dotFX; b_td := td; b_sd := td; b_tdt := tdt; b_sdt := tdt;
+         b_buy := Qcltb 0 amount; b_price := 1%Qc; b_shares := Qcabs amount; b_comm := 0%Qc;
+         b_cur := t_USD; b_rate := rate; b_reg := reg; b_row := row; b_acct := acct;
+         b_tb := Some (if Qcltb 0 amount then 1 else 2) |}.
+Proof.
+  unfold fx_tx. destruct (text_eqb cur t_USD) eqn:E; [|discriminate].
+  apply text_eqb_eq in E. subst. intros H. inversion H. auto.
+Qed.
+
+Lemma fx_tx_usd td tdt amount reg row acct rate :
+  exists t, fx_tx t_USD td tdt amount reg row acct rate = inr t.
+Proof. unfold fx_tx. rewrite text_eqb_refl. eexists. reflexivity. Qed.
+
+Lemma fx_signed cur td tdt amount reg row acct rate t :
+  fx_tx cur td tdt amount reg row acct rate = inr t -> signed_shares t = amount.
+Proof.
+  intros H. apply fx_tx_inr in H. destruct H as [_ ->]. unfold signed_shares. cbn.
+  apply Qcabs_signed.
+Qed.
+
+Lemma fx_is_fx cur td tdt amount reg row acct rate t :
+  fx_tx cur td tdt amount reg row acct rate = inr t -> is_fx t = true.
+Proof. intros H. apply fx_tx_inr in H. destruct H as [_ ->]. reflexivity. Qed.
+
+(* the pending first row of a conversion, as the USD it stands for *)
+Definition pend_usd (adj : option fxt_row) : Qc :=
+  match adj with
+  | Some fr => if text_eqb (fr_cur fr) t_USD then fr_amount fr else 0%Qc
+  | None => 0%Qc
+  end.
+Definition pend_of (adj : option fxt_row) : option (text * Qc) :=
+  option_map (fun fr => (fr_cur fr, fr_amount fr)) adj.
+Definition adj_sane (adj : option fxt_row) : Prop :=
+  match adj with Some fr => fr_amount fr <> 0%Qc | None => True end.
+
+(* a completed, accepted conversion *)
+Lemma add_fxt_pair a fr adj' fx :
+  add_fxt_row exact (Some a) fr = Ok (adj', fx, None) ->
+  exists cad other t,
+    ((text_eqb (fr_cur a) t_CAD = true /\ cad = a /\ other = fr) \/
+     (text_eqb (fr_cur a) t_CAD = false /\ cad = fr /\ other = a)) /\
+    fr_cur cad = t_CAD /\ fr_cur other = t_USD /\ fr_amount other <> 0%Qc /\
+    adj' = None /\ fx = [t] /\
+    fx_tx (fr_cur other) (fr_td other) (fr_tdt other) (fr_amount other) (fr_reg other)
+          (fr_row fr) (fr_acct other) (Some (Qcabs (fr_amount cad / fr_amount other))) = inr t.
+Proof.
+  unfold add_fxt_row. intros H.
+  set (co := if text_eqb (fr_cur a) t_CAD then (a, fr) else (fr, a)) in *.
+  assert (Hco : (text_eqb (fr_cur a) t_CAD = true /\ fst co = a /\ snd co = fr) \/
+                (text_eqb (fr_cur a) t_CAD = false /\ fst co = fr /\ snd co = a)).
+  { subst co. destruct (text_eqb (fr_cur a) t_CAD); [left|right]; auto. }
+  destruct co as [cad other]. cbn [fst snd] in Hco.
+  destruct (negb (text_eqb (fr_cur cad) t_CAD) || text_eqb (fr_cur other) t_CAD) eqn:E1; [discriminate|].
+  apply orb_false_iff in E1. destruct E1 as [E1 E1']. apply negb_false_iff in E1.
+  destruct (negb (date_eqb (fr_td other) (fr_td cad))); [discriminate|].
+  destruct (negb (Bool.eqb (fr_reg other) (fr_reg cad)) || negb (account_eqb (fr_acct other) (fr_acct cad)));
+    [discriminate|].
+  cbn [a_mul a_div exact bind] in H.
+  destruct (Qcltb 0 (fr_amount cad * fr_amount other)); [discriminate|].
+  destruct (Qceqb (fr_amount other) 0) eqn:Ez; cbn [bind] in H; [discriminate|].
+  destruct (fx_tx (fr_cur other) (fr_td other) (fr_tdt other) (fr_amount other) (fr_reg other)
+                  (fr_row fr) (fr_acct other) (Some (Qcabs (fr_amount cad / fr_amount other)))) as [er|t] eqn:Ef;
+    [discriminate|].
+  inversion H; subst. exists cad, other, t.
+  pose proof (fx_tx_inr _ _ _ _ _ _ _ _ _ Ef) as [Hcur _].
+  qc_bool. apply text_eqb_eq in E1. repeat split; auto.
+Qed.
+
+(* ---------- facts about the action of a row ---------- *)
+Lemma ignored_not_special act :
+  mem_text act ignored_actions = true ->
+  is_buy_action act = false /\ is_sell_action act = false /\
+  text_eqb act t_DIV = false /\ text_eqb act t_FXT = false.
+Proof.
+  intros H.
+  assert (Hn : is_trade_action act = false) by (apply not_trade_action; auto).
+  unfold is_trade_action in Hn. apply orb_false_iff in Hn. destruct Hn as [H1 H2].
+  repeat split; auto.
+  - destruct (text_eqb act t_DIV) eqn:E; [|reflexivity]. apply text_eqb_eq in E. subst. vm_compute in H. discriminate.
+  - destruct (text_eqb act t_FXT) eqn:E; [|reflexivity]. apply text_eqb_eq in E. subst. vm_compute in H. discriminate.
+Qed.
+
+Lemma fxt_not_other act :
+  text_eqb act t_FXT = true ->
+  is_buy_action act = false /\ is_sell_action act = false /\ text_eqb act t_DIV = false.
+Proof. intros H. apply text_eqb_eq in H. subst. vm_compute. auto. Qed.
+
+Lemma div_not_other act :
+  text_eqb act t_DIV = true ->
+  is_buy_action act = false /\ is_sell_action act = false /\ text_eqb act t_FXT = false.
+Proof. intros H. apply text_eqb_eq in H. subst. vm_compute. auto. Qed.
+
+Lemma buy_not_sell act : is_buy_action act = true -> is_sell_action act = false.
+Proof.
+  unfold is_buy_action, is_sell_action. rewrite orb_true_iff.
+  intros [H|H]; apply text_eqb_eq in H; subst; reflexivity.
+Qed.
+
+Lemma trade_buy_or_sell act :
+  is_trade_action act = true -> is_buy_action act = false -> is_sell_action act = true.
+Proof. unfold is_trade_action. intros H Hb. rewrite Hb in H. exact H. Qed.
+
+Lemma cad_not_usd c : text_eqb c t_CAD = true -> text_eqb c t_USD = false.
+Proof. intros H. apply text_eqb_eq in H. subst. reflexivity. Qed.
+Lemma usd_not_cad c : text_eqb c t_USD = true -> text_eqb c t_CAD = false.
+Proof. intros H. apply text_eqb_eq in H. subst. reflexivity. Qed.
+
+Lemma alias_nonnil c s : alias_symbol (c :: s) <> [].
+Proof. unfold alias_symbol. destruct (text_eqb (c :: s) t_H038778); discriminate. Qed.
+
+Local Open Scope Qc_scope.
+Lemma Qcdiv_nonzero a b : a <> 0 -> b <> 0 -> a / b <> 0.
+Proof.
+  intros Ha Hb E. apply Ha.
+  replace a with ((a / b) * b) by (field; exact Hb). rewrite E. ring.
+Qed.
+Lemma Qcabs_nonneg' a : Qcleb 0 (Qcabs a) = true.
+Proof. apply Qcleb_true. apply Qcabs_nonneg. Qed.
+Lemma Qcabs_pos' a : a <> 0 -> Qcltb 0 (Qcabs a) = true.
+Proof. intros H. apply Qcltb_true. apply Qcabs_pos. exact H. Qed.
+Local Close Scope Qc_scope.
+
+(* ---------- what a row without error does ---------- *)
+Definition row_good (n : N) (q : qrow) (adj : option fxt_row) (e : effect) : Prop :=
+  Forall (fun t => is_fx t = true) (e_fx e) /\
+  (signed_sum (e_fx e) + pend_usd (e_adj e) = pend_usd adj + row_usd_flow q)%Qc /\
+  (forall r, conversions (pend_of adj) n (q :: r)
+             = rated (e_fx e) ++ conversions (pend_of (e_adj e)) (n + 1) r) /\
+  (row_sane q = true -> adj_sane adj ->
+   Forall (fun t => acb_accepts t = true) (e_trades e ++ e_fx e) /\ adj_sane (e_adj e)).
+
+Tactic Notation "leaf" hyp(H) "as" ident(a) ident(b) ident(c) ident(d) :=
+  apply eff_inv in H; destruct H as (a & b & c & d).
+Ltac err_leaf H Hnone :=
+  apply eff_inv in H; let He := fresh "He" in
+  destruct H as (_ & _ & _ & He); rewrite Hnone in He; discriminate He.
+
+(* a row that emits nothing, leaves the tracker alone and moves no USD *)
+Lemma row_good_nothing n q adj e :
+  e_trades e = [] -> e_fx e = [] -> e_adj e = adj ->
+  row_usd_flow q = 0%Qc -> is_fxt_row q = false -> row_good n q adj e.
+Proof.
+  intros Ht Hf Ha Hflow Hfxt. unfold row_good. rewrite Ht, Hf, Ha. repeat split.
+  - constructor.
+  - rewrite Hflow. cbn. ring.
+  - intros r. cbn [conversions rated flat_map app]. rewrite Hfxt. reflexivity.
+  - constructor.
+  - assumption.
+Qed.
+
+Lemma row_good_intro n q adj e :
+  Forall (fun t => is_fx t = true) (e_fx e) ->
+  (signed_sum (e_fx e) + pend_usd (e_adj e) = pend_usd adj + row_usd_flow q)%Qc ->
+  (forall r, conversions (pend_of adj) n (q :: r)
+             = rated (e_fx e) ++ conversions (pend_of (e_adj e)) (n + 1) r) ->
+  (row_sane q = true -> adj_sane adj -> Forall (fun t => acb_accepts t = true) (e_trades e ++ e_fx e)) ->
+  (row_sane q = true -> adj_sane adj -> adj_sane (e_adj e)) ->
+  row_good n q adj e.
+Proof. intros H1 H2 H3 H4 H5. unfold row_good. repeat split; auto. Qed.
+
+Lemma row_ok n q adj e :
+  row_effect exact n q adj = Ok e -> e_err e = None -> row_good n q adj e.
+Proof.
+  intros H Hnone. unfold row_effect in H.
+  gb H; [| err_leaf H Hnone | discriminate].
+  set (act := upper v) in *.
+  assert (Hact : action_of q = act) by (unfold action_of, str_of; rewrite G; reflexivity).
+  destruct (negb (mem_text act allowed_actions) && negb (mem_text act ignored_actions)) eqn:Eun;
+    [err_leaf H Hnone|].
+  destruct (mem_text act ignored_actions) eqn:Eig.
+  { leaf H as Ht Hf Ha He. destruct (ignored_not_special act Eig) as (B1 & B2 & B3 & B4).
+    apply row_good_nothing; auto.
+    - unfold row_usd_flow. rewrite Hact, B1, B2, B3, B4. reflexivity.
+    - unfold is_fxt_row. rewrite Hact. exact B4. }
+  assert (Hall : mem_text act allowed_actions = true).
+  { cbn [negb] in Eun. rewrite andb_true_r in Eun. apply negb_false_iff in Eun. exact Eun. }
+  gb H; [| err_leaf H Hnone | discriminate]. rename v0 into tdt.
+  destruct (parse_date tdt) as [td|] eqn:Etd; [| err_leaf H Hnone].
+  gb H; [| err_leaf H Hnone | discriminate]. rename v0 into sdt.
+  destruct (parse_date sdt) as [sd|] eqn:Esd; [| err_leaf H Hnone].
+  gb H; [| err_leaf H Hnone | discriminate]. rename v0 into atype.
+  gb H; [| err_leaf H Hnone | discriminate]. rename v0 into anum.
+  destruct (text_eqb act t_FXT) eqn:Efxt.
+  { destruct (fxt_not_other act Efxt) as (B1 & B2 & B3).
+    gb H; [| err_leaf H Hnone | discriminate]. rename v0 into curs.
+    gb H; [| err_leaf H Hnone | discriminate]. rename v0 into amount.
+    assert (Hcur : row_currency q = currency_of curs) by (unfold row_currency, str_of; rewrite G4; reflexivity).
+    assert (Hnet : dec_or0 Col.net (q_net q) = amount) by (unfold dec_or0, dec_of; rewrite G5; reflexivity).
+    assert (Hflow : row_usd_flow q = if text_eqb (currency_of curs) t_USD then amount else 0%Qc).
+    { unfold row_usd_flow. rewrite Hact, B1, B2, B3, Efxt, Hcur, Hnet. reflexivity. }
+    assert (Hisf : is_fxt_row q = true) by (unfold is_fxt_row; rewrite Hact; exact Efxt).
+    assert (Hsane : row_sane q = true -> amount <> 0%Qc).
+    { unfold row_sane. rewrite Hact. unfold is_trade_action. rewrite B1, B2, Efxt, Hnet. cbn [orb].
+      intros Hs. apply negb_true_iff in Hs. qc_bool. exact Hs. }
+    match type of H with bind (add_fxt_row exact adj ?fr0) _ = _ => set (fr := fr0) in * end.
+    destruct (add_fxt_row exact adj fr) as [[[adj' fx] er]| |] eqn:Eadd; cbn [bind] in H; try discriminate.
+    destruct adj as [a|].
+    - leaf H as Ht Hf Ha He. rewrite Hnone in He. subst er.
+      destruct (add_fxt_pair a fr adj' fx Eadd) as (cad & other & t & Hco & Hcad & Hoth & Hnz & -> & -> & Hfx).
+      pose proof (fx_tx_inr _ _ _ _ _ _ _ _ _ Hfx) as [_ Ht'].
+      apply row_good_intro; rewrite ?Ht, ?Hf, ?Ha.
+      + constructor; [|constructor]. apply (fx_is_fx _ _ _ _ _ _ _ _ _ Hfx).
+      + cbn [signed_sum fold_right pend_usd]. rewrite (fx_signed _ _ _ _ _ _ _ _ _ Hfx), Hflow.
+        destruct Hco as [(Ec & -> & ->)|(Ec & -> & ->)].
+        * rewrite (cad_not_usd _ Ec). cbn [fr_cur fr] in Hoth |- *. rewrite Hoth. cbn. ring.
+        * cbn [fr_cur fr] in Hcad. rewrite Hcad. rewrite Hoth. cbn. ring.
+      + intros r. cbn [conversions pend_of option_map]. rewrite Hisf, Hnet.
+        subst t. cbn [rated flat_map b_rate b_shares b_row app].
+        destruct Hco as [(Ec & -> & ->)|(Ec & -> & ->)]; rewrite Ec; reflexivity.
+      + intros Hs Hadj. cbn [app]. constructor; [|constructor].
+        subst t. unfold acb_accepts. cbn.
+        rewrite (Qcabs_pos' _ Hnz). cbn.
+        apply Qcltb_true. apply Qcabs_pos. apply Qcdiv_nonzero; [|exact Hnz].
+        destruct Hco as [(Ec & -> & ->)|(Ec & -> & ->)]; [exact Hadj | exact (Hsane Hs)].
+      + intros _ _. exact I.
+    - cbn in Eadd. injection Eadd as <- <- <-. leaf H as Ht Hf Ha He.
+      apply row_good_intro; rewrite ?Ht, ?Hf, ?Ha.
+      + constructor.
+      + cbn [signed_sum fold_right pend_usd fr_cur fr fr_amount]. rewrite Hflow. ring.
+      + intros r. cbn [conversions pend_of option_map rated flat_map app fr fr_cur fr_amount].
+        rewrite Hisf, Hcur, Hnet. reflexivity.
+      + intros _ _. constructor.
+      + intros Hs _. cbn. exact (Hsane Hs). }
+  gb H; [| err_leaf H Hnone | discriminate]. rename v0 into sym.
+  destruct sym as [|c s]; [err_leaf H Hnone|].
+  destruct (text_eqb act t_DIV) eqn:Ediv.
+  { destruct (div_not_other act Ediv) as (B1 & B2 & B3).
+    gb H; [| err_leaf H Hnone | discriminate]. rename v0 into curs.
+    assert (Hcur : row_currency q = currency_of curs) by (unfold row_currency, str_of; rewrite G5; reflexivity).
+    assert (Hisf : is_fxt_row q = false) by (unfold is_fxt_row; rewrite Hact; exact B3).
+    destruct (text_eqb (upper curs) t_USD) eqn:Eusd.
+    - gb H; [| err_leaf H Hnone | discriminate]. rename v0 into amount.
+      assert (Hnet : dec_or0 Col.net (q_net q) = amount) by (unfold dec_or0, dec_of; rewrite G6; reflexivity).
+      destruct (fx_tx t_USD td tdt amount (is_registered_type atype) n
+                      {| ac_type := atype; ac_num := anum |} None) as [er|t] eqn:Efx; [err_leaf H Hnone|].
+      leaf H as Ht Hf Ha He.
+      pose proof (fx_tx_inr _ _ _ _ _ _ _ _ _ Efx) as [_ Ht'].
+      apply row_good_intro; rewrite ?Ht, ?Hf, ?Ha.
+      + constructor; [|constructor]. apply (fx_is_fx _ _ _ _ _ _ _ _ _ Efx).
+      + cbn [signed_sum fold_right]. rewrite (fx_signed _ _ _ _ _ _ _ _ _ Efx).
+        unfold row_usd_flow. rewrite Hact, B1, B2, Ediv, Hcur, currency_usd, Eusd, Hnet. cbn [orb]. ring.
+      + intros r. cbn [conversions]. rewrite Hisf. subst t. reflexivity.
+      + intros Hs _. cbn [app]. constructor; [|constructor]. subst t. unfold acb_accepts. cbn.
+        assert (Hnz : amount <> 0%Qc).
+        { unfold row_sane in Hs. rewrite Hact in Hs. unfold is_trade_action in Hs.
+          rewrite B1, B2, B3, Ediv, Hcur, currency_usd, Eusd, Hnet in Hs. cbn in Hs.
+          apply negb_true_iff in Hs. qc_bool. exact Hs. }
+        rewrite (Qcabs_pos' _ Hnz). reflexivity.
+      + intros _ Hadj. exact Hadj.
+    - leaf H as Ht Hf Ha He. apply row_good_nothing; auto.
+      unfold row_usd_flow. rewrite Hact, B1, B2, Ediv, Hcur, currency_usd, Eusd. reflexivity. }
+  assert (Htr : is_trade_action act = true) by (apply trade_action_iff; auto).
+  gb H; [| err_leaf H Hnone | discriminate]. rename v0 into price.
+  gb H; [| err_leaf H Hnone | discriminate]. rename v0 into qty.
+  gb H; [| err_leaf H Hnone | discriminate]. rename v0 into comm.
+  gb H; [| err_leaf H Hnone | discriminate]. rename v0 into curs.
+  assert (Hcur : row_currency q = currency_of curs) by (unfold row_currency, str_of; rewrite G8; reflexivity).
+  assert (Hp : dec_or0 Col.price (q_price q) = price) by (unfold dec_or0, dec_of; rewrite G5; reflexivity).
+  assert (Hq : dec_or0 Col.qty (q_qty q) = qty) by (unfold dec_or0, dec_of; rewrite G6; reflexivity).
+  assert (Hc : dec_or0 Col.comm (q_comm q) = comm) by (unfold dec_or0, dec_of; rewrite G7; reflexivity).
+  assert (Hisf : is_fxt_row q = false) by (unfold is_fxt_row; rewrite Hact; exact Efxt).
+  match type of H with context [cur_is_default (b_cur ?t0)] => set (t := t0) in * end.
+  assert (Hflow : row_usd_flow q =
+                  if text_eqb (currency_of curs) t_USD
+                  then ((if b_buy t then - (price * Qcabs qty) else price * Qcabs qty) - Qcabs comm)%Qc
+                  else 0%Qc).
+  { unfold row_usd_flow. rewrite Hact, Hcur, Hp, Hq, Hc. subst t. cbn [b_buy].
+    change (text_eqb act t_BUY || text_eqb act t_DIS) with (is_buy_action act).
+    destruct (is_buy_action act) eqn:Eb.
+    - destruct (text_eqb (currency_of curs) t_USD); [ring | reflexivity].
+    - rewrite (trade_buy_or_sell act Htr Eb). reflexivity. }
+  assert (Htacc : row_sane q = true -> acb_accepts t = true).
+  { unfold row_sane. rewrite Hact, Htr, Hq, Hp, Hcur. intros Hs.
+    apply andb_true_iff in Hs. destruct Hs as [Hs Hcc]. apply andb_true_iff in Hs. destruct Hs as [Hqz Hpp].
+    apply negb_true_iff in Hqz. qc_bool.
+    unfold acb_accepts. subst t. cbn [b_shares b_price b_comm b_sec b_rate b_cur].
+    rewrite (Qcabs_pos' _ Hqz), Qcabs_nonneg'. apply Qcleb_true in Hpp. rewrite Hpp, Hcc.
+    destruct (alias_symbol (c :: s)) eqn:Eal; [exfalso; apply (alias_nonnil c s); exact Eal|]. reflexivity. }
+  destruct (cur_is_default (b_cur t)) eqn:Edef.
+  - leaf H as Ht Hf Ha He. apply row_good_intro; rewrite ?Ht, ?Hf, ?Ha.
+    + constructor.
+    + rewrite Hflow. unfold cur_is_default in Edef. subst t. cbn [b_cur] in Edef. rewrite (cad_not_usd _ Edef). cbn. ring.
+    + intros r. cbn [conversions rated flat_map app]. rewrite Hisf. reflexivity.
+    + intros Hs _. cbn [app]. constructor; [exact (Htacc Hs)|constructor].
+    + intros _ Hadj. exact Hadj.
+  - rewrite add_implicit_exact in H. cbv zeta in H.
+    match type of H with context [Qceqb ?a 0] => set (amt := a) in * end.
+    assert (Hamt : amt = ((if b_buy t then - (price * Qcabs qty) else price * Qcabs qty) - Qcabs comm)%Qc) by reflexivity.
+    destruct (Qceqb amt 0) eqn:Ez; cbn [bind] in H.
+    + leaf H as Ht Hf Ha He. qc_bool. apply row_good_intro; rewrite ?Ht, ?Hf, ?Ha.
+      * constructor.
+      * rewrite Hflow, <- Hamt, Ez. destruct (text_eqb (currency_of curs) t_USD); cbn; ring.
+      * intros r. cbn [conversions rated flat_map app]. rewrite Hisf. reflexivity.
+      * intros Hs _. cbn [app]. constructor; [exact (Htacc Hs)|constructor].
+      * intros _ Hadj. exact Hadj.
+    + destruct (fx_tx (b_cur t) (b_td t) (b_tdt t) amt (b_reg t) (b_row t) (b_acct t) None) as [er|x] eqn:Efx;
+        cbn [bind] in H; [err_leaf H Hnone|].
+      leaf H as Ht Hf Ha He.
+      pose proof (fx_tx_inr _ _ _ _ _ _ _ _ _ Efx) as [Husd Hx].
+      qc_bool. apply row_good_intro; rewrite ?Ht, ?Hf, ?Ha.
+      * constructor; [|constructor]. apply (fx_is_fx _ _ _ _ _ _ _ _ _ Efx).
+      * cbn [signed_sum fold_right]. rewrite (fx_signed _ _ _ _ _ _ _ _ _ Efx), Hflow, <- Hamt.
+        subst t. cbn [b_cur] in Husd. rewrite Husd. cbn. ring.
+      * intros r. cbn [conversions]. rewrite Hisf. subst x. reflexivity.
+      * intros Hs _. cbn [app]. constructor; [exact (Htacc Hs)|]. constructor; [|constructor].
+        subst x. unfold acb_accepts. cbn. rewrite (Qcabs_pos' _ Ez). reflexivity.
+      * intros _ Hadj. exact Hadj.
+Qed.
+
+(* FX transactions carry a tie-break, whatever happens to the row *)
+Lemma add_fxt_fx adj fr adj' fx er :
+  add_fxt_row exact adj fr = Ok (adj', fx, er) -> Forall (fun t => is_fx t = true) fx.
+Proof.
+  unfold add_fxt_row. destruct adj as [a|]; [|intros H; inversion H; constructor].
+  destruct (if text_eqb (fr_cur a) t_CAD then (a, fr) else (fr, a)) as [cad other].
+  destruct (negb (text_eqb (fr_cur cad) t_CAD) || text_eqb (fr_cur other) t_CAD);
+    [intros H; inversion H; constructor|].
+  destruct (negb (date_eqb (fr_td other) (fr_td cad))); [intros H; inversion H; constructor|].
+  destruct (negb (Bool.eqb (fr_reg other) (fr_reg cad)) || negb (account_eqb (fr_acct other) (fr_acct cad)));
+    [intros H; inversion H; constructor|].
+  cbn [a_mul a_div exact bind].
+  destruct (Qcltb 0 (fr_amount cad * fr_amount other)); [intros H; inversion H; constructor|].
+  destruct (Qceqb (fr_amount other) 0); cbn [bind]; [discriminate|].
+  destruct (fx_tx _ _ _ _ _ _ _ _) as [x|t] eqn:Ef; intros H; inversion H; subst; constructor; [|constructor].
+  apply (fx_is_fx _ _ _ _ _ _ _ _ _ Ef).
+Qed.
+
+Lemma add_implicit_fx t fx er :
+  add_implicit_fxt exact t = Ok (fx, er) -> Forall (fun t => is_fx t = true) fx.
+Proof.
+  rewrite add_implicit_exact. cbv zeta.
+  match goal with |- context [Qceqb ?a 0] => destruct (Qceqb a 0) end; [intros H; inversion H; constructor|].
+  destruct (fx_tx _ _ _ _ _ _ _ _) as [x|y] eqn:Ef; intros H; inversion H; subst; constructor; [|constructor].
+  apply (fx_is_fx _ _ _ _ _ _ _ _ _ Ef).
+Qed.
+
+Lemma row_fx_are_fx n q adj e :
+  row_effect exact n q adj = Ok e -> Forall (fun t => is_fx t = true) (e_fx e).
+Proof.
+  intros H. unfold row_effect in H.
+  repeat match type of H with
+         | gbind ?g _ _ = Ok _ =>
+             destruct g; cbn [gbind] in H; cbv beta in H; [ | | discriminate H]
+         | (if ?c then _ else _) = Ok _ => destruct c
+         | match parse_date ?s with _ => _ end = Ok _ => destruct (parse_date s)
+         | match ?sym with [] => _ | _ :: _ => _ end = Ok _ => destruct sym
+         end;
+  first
+    [ apply eff_inv in H; destruct H as (_ & -> & _ & _); repeat constructor
+    | match type of H with
+      | bind (add_fxt_row exact ?a ?f) _ = _ =>
+          let Ea := fresh "Ea" in
+          destruct (add_fxt_row exact a f) as [[[adj' fx] er]| |] eqn:Ea; cbn [bind] in H; try discriminate H;
+          apply eff_inv in H; destruct H as (_ & -> & _ & _); apply (add_fxt_fx _ _ _ _ _ Ea)
+      | bind (add_implicit_fxt exact ?t) _ = _ =>
+          let Ea := fresh "Ea" in
+          destruct (add_implicit_fxt exact t) as [[fx er]| |] eqn:Ea; cbn [bind] in H; try discriminate H;
+          apply eff_inv in H; destruct H as (_ & -> & _ & _); apply (add_implicit_fx _ _ _ Ea)
+      | match fx_tx ?a ?b ?c ?d ?e0 ?f ?g ?h with _ => _ end = _ =>
+          let Ef := fresh "Ef" in
+          destruct (fx_tx a b c d e0 f g h) as [x|t] eqn:Ef; apply eff_inv in H; destruct H as (_ & -> & _ & _);
+          constructor; [|constructor]; apply (fx_is_fx _ _ _ _ _ _ _ _ _ Ef)
+      end ].
+Qed.
+
+(* ---------- all rows ---------- *)
+Lemma signed_sum_cons x l : signed_sum (x :: l) = (signed_shares x + signed_sum l)%Qc.
+Proof. reflexivity. Qed.
+Lemma signed_sum_app a b : signed_sum (a ++ b) = (signed_sum a + signed_sum b)%Qc.
+Proof.
+  induction a as [|x a IH].
+  - change (signed_sum []) with 0%Qc. cbn [app]. ring.
+  - rewrite <- app_comm_cons, !signed_sum_cons, IH. ring.
+Qed.
+
+Lemma rated_app a b : rated (a ++ b) = rated a ++ rated b.
+Proof. unfold rated. apply flat_map_app. Qed.
+
+Lemma convert_rows_fx rows : forall n adj ts fs adj' errs,
+  convert_rows exact n rows adj = Ok (ts, fs, adj', errs) -> Forall (fun t => is_fx t = true) fs.
+Proof.
+  induction rows as [|q r IH]; intros n adj ts fs adj' errs H.
+  - cbn in H. inversion H. constructor.
+  - cbn [convert_rows] in H.
+    destruct (row_effect exact n q adj) as [e| |] eqn:Er; cbn [bind] in H; try discriminate.
+    destruct (convert_rows exact (n + 1) r (e_adj e)) as [[[[ts' fs'] a'] errs']| |] eqn:Ec;
+      cbn [bind] in H; try discriminate.
+    inversion H; subst. apply Forall_app. split; [apply (row_fx_are_fx _ _ _ _ Er) | apply (IH _ _ _ _ _ _ Ec)].
+Qed.
+
+Lemma expected_trades_are_trades rows : forall n,
+  Forall (fun t => is_trade t = true /\ b_rate t = None) (expected_trades n rows).
+Proof.
+  induction rows as [|q r IH]; intros n; [constructor|].
+  cbn [expected_trades]. apply Forall_app. split; [|apply IH].
+  unfold trade_of_row.
+  destruct (is_trade_action (action_of q)); [|constructor].
+  repeat match goal with
+         | |- Forall _ (match match ?x with _ => _ end with _ => _ end) => destruct x; try constructor
+         end.
+  all: try (split; reflexivity). all: try constructor.
+Qed.
+
+Lemma filter_trades ts fs :
+  Forall (fun t => is_trade t = true) ts -> Forall (fun t => is_fx t = true) fs ->
+  filter is_trade (ts ++ fs) = ts /\ filter is_fx (ts ++ fs) = fs.
+Proof.
+  intros Ht Hf. rewrite !filter_app. split.
+  - replace (filter is_trade fs) with (@nil btx).
+    + rewrite app_nil_r. induction Ht as [|x l Hx _ IH]; [reflexivity|]. cbn [filter]. rewrite Hx, IH. reflexivity.
+    + induction Hf as [|x l Hx _ IH]; [reflexivity|]. cbn [filter]. unfold is_trade. rewrite Hx. cbn. exact IH.
+  - replace (filter is_fx ts) with (@nil btx).
+    + cbn [app]. induction Hf as [|x l Hx _ IH]; [reflexivity|]. cbn [filter]. rewrite Hx, IH. reflexivity.
+    + induction Ht as [|x l Hx _ IH]; [reflexivity|]. cbn [filter]. unfold is_trade in Hx.
+      apply negb_true_iff in Hx. rewrite Hx. exact IH.
+Qed.
+
+Lemma convert_split rows txs errs :
+  convert exact rows = Ok (txs, errs) ->
+  exists ts fs adj' errs', convert_rows exact 2 rows None = Ok (ts, fs, adj', errs') /\
+    txs = ts ++ fs /\ errs = errs' ++ unpaired_error adj'.
+Proof.
+  unfold convert. destruct (convert_rows exact 2 rows None) as [[[[ts fs] a] er]| |]; cbn [bind]; try discriminate.
+  intros H. inversion H. exists ts, fs, a, er. auto.
+Qed.
+
+(* one row per trade activity, in order, whatever else goes wrong in the sheet *)
+Theorem convert_trades rows txs errs :
+  convert exact rows = Ok (txs, errs) -> filter is_trade txs = expected_trades 2 rows.
+Proof.
+  intros H. destruct (convert_split _ _ _ H) as (ts & fs & adj' & errs' & Hc & -> & _).
+  pose proof (convert_rows_trades _ _ _ _ _ _ _ Hc) as ->.
+  apply filter_trades.
+  - pose proof (expected_trades_are_trades rows 2) as Hf. rewrite Forall_forall in *. intros x Hx. apply Hf. exact Hx.
+  - apply (convert_rows_fx _ _ _ _ _ _ _ Hc).
+Qed.
+
+(* no error anywhere *)
+Lemma convert_rows_ok rows : forall n adj ts fs adj',
+  convert_rows exact n rows adj = Ok (ts, fs, adj', []) ->
+  (signed_sum fs + pend_usd adj' = pend_usd adj + usd_flow rows)%Qc /\
+  conversions (pend_of adj) n rows = rated fs /\
+  (forallb row_sane rows = true -> adj_sane adj ->
+   Forall (fun t => acb_accepts t = true) (ts ++ fs) /\ adj_sane adj').
+Proof.
+  induction rows as [|q r IH]; intros n adj ts fs adj' H.
+  - cbn in H. inversion H; subst. cbn. split; [ring|]. split; [reflexivity|]. intros _ Hadj. split; [constructor|exact Hadj].
+  - cbn [convert_rows] in H.
+    destruct (row_effect exact n q adj) as [e| |] eqn:Er; cbn [bind] in H; try discriminate.
+    destruct (convert_rows exact (n + 1) r (e_adj e)) as [[[[ts' fs'] a'] errs']| |] eqn:Ec;
+      cbn [bind] in H; try discriminate.
+    inversion H as [[H1 H2 H3 H4]]. subst ts fs adj'.
+    destruct (e_err e) eqn:Ee; [discriminate H4|]. cbn [app] in H4. subst errs'.
+    destruct (row_ok n q adj e Er Ee) as (_ & Hcash & Hrate & Hacc).
+    destruct (IH _ _ _ _ _ Ec) as (IHcash & IHrate & IHacc).
+    split; [|split].
+    + rewrite signed_sum_app. cbn [usd_flow fold_right]. fold (usd_flow r).
+      transitivity (signed_sum (e_fx e) + (pend_usd (e_adj e) + usd_flow r))%Qc; [rewrite <- IHcash; ring|].
+      transitivity ((signed_sum (e_fx e) + pend_usd (e_adj e)) + usd_flow r)%Qc; [ring|]. rewrite Hcash. ring.
+    + rewrite Hrate, IHrate, rated_app. reflexivity.
+    + intros Hsane Hadj.
+      cbn [forallb] in Hsane. apply andb_true_iff in Hsane. destruct Hsane as [Hq Hr].
+      destruct (Hacc Hq Hadj) as [Ha1 Ha2]. destruct (IHacc Hr Ha2) as [Hb1 Hb2].
+      split; [|exact Hb2].
+      apply Forall_app in Ha1. destruct Ha1 as [Ha1 Ha1']. apply Forall_app in Hb1. destruct Hb1 as [Hb1 Hb1'].
+      repeat (apply Forall_app; split); assumption.
+Qed.
+
+Lemma convert_no_error rows txs :
+  convert exact rows = Ok (txs, []) ->
+  exists ts fs, convert_rows exact 2 rows None = Ok (ts, fs, None, []) /\ txs = ts ++ fs.
+Proof.
+  intros H. destruct (convert_split _ _ _ H) as (ts & fs & adj' & errs' & Hc & -> & He).
+  symmetry in He. apply app_eq_nil in He. destruct He as [-> Hu].
+  destruct adj' as [a|]; [discriminate Hu|]. exists ts, fs. auto.
+Qed.
+
+Theorem convert_cash rows txs :
+  convert exact rows = Ok (txs, []) -> signed_sum (filter is_fx txs) = usd_flow rows.
+Proof.
+  intros H. destruct (convert_no_error _ _ H) as (ts & fs & Hc & ->).
+  destruct (convert_rows_ok _ _ _ _ _ _ Hc) as (Hcash & _ & _).
+  pose proof (convert_rows_trades _ _ _ _ _ _ _ Hc) as Hts.
+  destruct (filter_trades ts fs) as [_ ->].
+  - subst ts. pose proof (expected_trades_are_trades rows 2) as Hf. rewrite Forall_forall in *. intros x Hx. apply Hf. exact Hx.
+  - apply (convert_rows_fx _ _ _ _ _ _ _ Hc).
+  - cbn [pend_usd] in Hcash. replace (signed_sum fs) with (signed_sum fs + 0)%Qc by ring.
+    rewrite Hcash. ring.
+Qed.
+
+Lemma rated_trades rows n : rated (expected_trades n rows) = [].
+Proof.
+  pose proof (expected_trades_are_trades rows n) as H.
+  induction H as [|x l [_ Hx] _ IH]; [reflexivity|].
+  unfold rated in *. cbn [flat_map]. rewrite Hx, IH. reflexivity.
+Qed.
+
+Theorem convert_rates rows txs :
+  convert exact rows = Ok (txs, []) -> rated txs = conversions None 2 rows.
+Proof.
+  intros H. destruct (convert_no_error _ _ H) as (ts & fs & Hc & ->).
+  destruct (convert_rows_ok _ _ _ _ _ _ Hc) as (_ & Hrate & _).
+  pose proof (convert_rows_trades _ _ _ _ _ _ _ Hc) as ->.
+  rewrite rated_app, rated_trades. cbn [app pend_of option_map] in *. symmetry. exact Hrate.
+Qed.
+
+Theorem convert_accepted rows txs :
+  convert exact rows = Ok (txs, []) -> forallb row_sane rows = true ->
+  Forall (fun t => acb_accepts t = true) txs.
+Proof.
+  intros H Hs. destruct (convert_no_error _ _ H) as (ts & fs & Hc & ->).
+  destruct (convert_rows_ok _ _ _ _ _ _ Hc) as (_ & _ & Hacc). apply Hacc; [exact Hs | exact I].
+Qed.
